@@ -106,6 +106,17 @@ theorem pre_complete_on (root : T) (hc : CongrOn key root) (d : T) (hd : Desc ro
   obtain ⟨_, hdesc, hrep, hclosed⟩ := pre_root key root
   exact closed_desc_on key hc _ hdesc hclosed hd (.refl root) hrep
 
+theorem CongrOn.mirror {root : T} (hc : CongrOn key root) : CongrOn (mkey key) root.mirror := by
+  intro a c k ha hc' hka hkc
+  have ha' : Desc root a.mirror := by simpa using ha.mirror
+  have hc'' : Desc root c.mirror := by simpa using hc'.mirror
+  have h := hc a.mirror c.mirror k ha' hc'' hka hkc
+  have hl := h.1.mirror key
+  have hr := h.2.mirror key
+  cases a <;> cases c <;>
+    simp only [T.mirror, T.left, T.right, Option.map, SameO, T.mirror_mirror] at hl hr ⊢ <;>
+    first | exact ⟨hl, hr⟩ | exact ⟨hr, hl⟩ | exact hl.elim | exact hr.elim
+
 /-! ### the three policies of the property -/
 
 /-- `NoSharing` -/
